@@ -112,7 +112,7 @@ tag_family = st.lists(comp, min_size=0, max_size=5).flatmap(
 tag_list = st.one_of(st.lists(tag, min_size=2, max_size=12), tag_family)
 
 
-@prop.given("sorting-random", tag_list, quick=12000, thorough=600000)
+@prop.given("sorting-random", tag_list, quick=12000, thorough=250000)
 def check_sort(case, rec):
     from streamflow.core.utils import compare_tags
 
@@ -146,7 +146,7 @@ chain = st.tuples(
 )
 
 
-@prop.given("get-tag-chain", chain, quick=6000, thorough=200000)
+@prop.given("get-tag-chain", chain, quick=6000, thorough=80000)
 def check_get_tag(case, rec):
     from streamflow.core.utils import get_tag
     from streamflow.core.workflow import Token
@@ -196,7 +196,7 @@ name_comp = st.text(alphabet="abcXYZ019_-. ", min_size=1, max_size=6).filter(lam
 job = st.tuples(st.lists(name_comp, min_size=1, max_size=4), tag)
 
 
-@prop.given("job-name-split", job, quick=6000, thorough=200000)
+@prop.given("job-name-split", job, quick=6000, thorough=80000)
 def check_job_name(case, rec):
     from streamflow.core.utils import get_job_step_name, get_job_tag
 
